@@ -190,28 +190,51 @@ def rule_r3(prog, res) -> None:
         res.violation("C12.R3", fc, loops[0].ast, "links are computed without a dominating raising comparison of the catalogs' patch-id sets", key_extra="id-set-guard")
     if ok_chk:
         call = next(c for n in chk for c in n.calls() if any(t.name == "check_patch_conistency" for t in prog.resolve_call(fc, c).funcs()))
-        covers = len(call.args) >= 2 and any(isinstance(a, ast.Starred) for a in call.args)
-        if covers:
-            from .c01 import _coverage
+        # decided on the substituted arguments of the call (symbolic store): together they must range over every catalog
+        first = [p for p in fc.param_names() if p.startswith("catalog")][0]
+        rest = fc.node.args.vararg.arg
 
-            first = [p for p in fc.param_names() if p.startswith("catalog")][0]
-            rest = fc.node.args.vararg.arg
-            cov = set()
-            for a in call.args:
-                if isinstance(a, ast.Starred) and isinstance(a.value, ast.Name):
-                    if a.value.id == rest:
-                        cov.add("rest")
-                    else:
-                        # a starred local: what does a loop over it cover?
-                        probe = ast.For(target=ast.Name(id="__x", ctx=ast.Store()), iter=a.value, body=[], orelse=[])
-                        for x in walk_no_nested(fc.node):
-                            if isinstance(x, ast.Assign) and isinstance(x.targets[0], (ast.Tuple, ast.List)):
-                                for t in x.targets[0].elts:
-                                    if isinstance(t, ast.Starred) and isinstance(t.value, ast.Name) and t.value.id == a.value.id:
-                                        cov.add("others")
-                elif isinstance(a, ast.Name):
-                    cov |= _coverage(fc, a, first, rest)
-            covers = {"first", "rest"} <= cov or {"one", "others"} <= cov
+        def all_cov(e) -> bool:
+            """a collection that holds every catalog: [first, *rest] (possibly sorted / copied)"""
+            e = symx.strip_wrappers(e)
+            if isinstance(e, (ast.List, ast.Tuple)):
+                has_first = any(isinstance(x, ast.Name) and x.id == first for x in e.elts)
+                has_rest = any(isinstance(x, ast.Starred) and isinstance(x.value, ast.Name) and x.value.id == rest for x in e.elts)
+                return has_first and has_rest
+            if isinstance(e, ast.Call) and (dotted(e.func) or "") in ("sorted", "list", "tuple", "reversed") and e.args:
+                return all_cov(e.args[0])
+            return False
+
+        def arg_cov(a) -> set:
+            star = isinstance(a, ast.Starred)
+            e = symx.strip_wrappers(a.value if star else a)
+            if isinstance(e, ast.Name):
+                if e.id == first and not star:
+                    return {"first"}
+                if e.id == rest and star:
+                    return {"rest"}
+                return set()
+            if star and all_cov(e):
+                return {"first", "rest"}
+            if isinstance(e, ast.Subscript) and all_cov(e.value):
+                if not star and isinstance(e.slice, ast.Constant) and e.slice.value == 0:
+                    return {"one"}
+                if star and isinstance(e.slice, ast.Slice) and isinstance(e.slice.lower, ast.Constant) and e.slice.lower.value == 1 and e.slice.upper is None and e.slice.step is None:
+                    return {"others"}
+            return set()
+
+        covers = True
+        n_ev = 0
+        for p in rets_:
+            for ev in p.calls("check_patch_conistency"):
+                n_ev += 1
+                cov = set()
+                for a in ev.expr.args:
+                    cov |= arg_cov(a)
+                if not ({"first", "rest"} <= cov or {"one", "others"} <= cov):
+                    covers = False
+        if n_ev == 0:
+            covers = False
         if covers:
             res.ok("C12.R3", res.site(fc, "alignment"), "centre alignment of all catalogs is checked before links are computed")
         else:
@@ -283,7 +306,21 @@ def rule_r4(prog, res) -> None:
             raise AnalysisError(f"C12.R4: Catalog.{name} vanished")
         n += 1
         res.touch(m)
-        its = [g.iter for x in walk_no_nested(m.node) if isinstance(x, (ast.GeneratorExp, ast.ListComp)) for g in x.generators]
+        # the getter itself and the private helpers of the class it delegates the enumeration to (e.g. a shared
+        # generator method): every loop / comprehension among them must run over the sorted patch view
+        scope, frontier = [m], [m]
+        for _ in range(2):
+            nxt = []
+            for f_ in frontier:
+                for c_ in calls_in(f_):
+                    for g_ in prog.resolve_call(f_, c_).funcs():
+                        if g_.cls is not None and g_.cls in prog.mro(cat) and g_.name.startswith("_") and not g_.name.startswith("__") and g_ not in scope:
+                            scope.append(g_)
+                            nxt.append(g_)
+            frontier = nxt
+        its = [g.iter for f_ in scope for x in walk_no_nested(f_.node) if isinstance(x, (ast.GeneratorExp, ast.ListComp)) for g in x.generators]
+        its += [x.iter for f_ in scope for x in walk_no_nested(f_.node) if isinstance(x, ast.For)]
+
         def _ordered_source(i) -> bool:
             t = unparse(i).replace(" ", "")
             return t in ("self.values()", "self.items()", "self.keys()", "self") or t.startswith("sorted(")
